@@ -21,12 +21,20 @@ fn run_perturbed(ctx: &Ctx, l: &mut Local) {
     let mut cases = vec![];
     let mut idx = vec![];
     for (i, c) in base_cases.iter().enumerate() {
-        for r in 0..reps {
+        // the 165..190-bit inputs typically complete with fewer relations than the factor base has primes: there the
+        // published gap decides between success and the internal error, so they get more runs, mostly in "stale" mode
+        let big = c.shape == "large-semiprime";
+        for r in 0..(if big { reps * 2 } else { reps }) {
             let mut d = c.clone();
             d.prefs.threads = Some(THREAD_COUNTS[(i + r) % THREAD_COUNTS.len()]);
-            // bit 1 selects the "window" mode of the hook; the general batch uses the PCT-flavoured mode
             // general batch: PCT-flavoured mode, every fourth run the "ambush" mode
-            d.prefs.perturb = Some(if (i + r) % 4 == 3 { rng.next() & !14 | 9 } else { rng.next() & !14 | 1 });
+            d.prefs.perturb = Some(if big && r % 4 != 3 {
+                rng.next() & !14 | 13
+            } else if (i + r) % 4 == 3 {
+                rng.next() & !14 | 9
+            } else {
+                rng.next() & !14 | 1
+            });
             cases.push(d);
             idx.push(i);
         }
@@ -63,10 +71,12 @@ fn run_perturbed(ctx: &Ctx, l: &mut Local) {
         for r in 0..wreps {
             let mut d = c.clone();
             d.prefs.threads = Some([8, 12, 16][(i + r) % 3]);
-            // half of the runs use the "ambush" mode (bit 3), a third the "freeze" mode (bit 2), a sixth the "window" mode (bit 1)
+            // a third of the runs use the "ambush" mode (bit 3), a third the "freeze" mode (bit 2), a sixth each the
+            // "window" mode (bit 1) and the "stale" mode (bits 2 and 3)
             let x = rng.next() & !14 | 1;
             d.prefs.perturb = Some(match r % 6 {
-                0 | 2 | 4 => x | 8,
+                0 | 2 => x | 8,
+                4 => x | 12,
                 1 | 3 => x | 4,
                 _ => x | 2,
             });
@@ -84,10 +94,17 @@ fn run_perturbed(ctx: &Ctx, l: &mut Local) {
         if c.prefs.perturb.unwrap_or(0) & 2 != 0 {
             l.label("perturbed:window-mode");
         }
-        if c.prefs.perturb.unwrap_or(0) & 4 != 0 {
+        let pm = c.prefs.perturb.unwrap_or(0);
+        if pm & 12 == 12 {
+            l.label("perturbed:stale-mode");
+            if let crate::worker::JobResult::Resp(v) = r {
+                if v["site_hits"][21].as_u64().unwrap_or(0) > 0 {
+                    l.label("perturbed:stale-publication-delayed");
+                }
+            }
+        } else if pm & 4 != 0 {
             l.label("perturbed:freeze-mode");
-        }
-        if c.prefs.perturb.unwrap_or(0) & 8 != 0 {
+        } else if pm & 8 != 0 {
             l.label("perturbed:ambush-mode");
             if let crate::worker::JobResult::Resp(v) = r {
                 if v["ambushes"].as_u64().unwrap_or(0) > 0 {
@@ -122,6 +139,7 @@ pub fn run(ctx: &Ctx, l: &mut Local) {
     ctx.essential("perturbed:window-mode", 20);
     ctx.essential("perturbed:freeze-mode", 40);
     ctx.essential("perturbed:ambush-sprung", 20);
+    ctx.essential("perturbed:stale-publication-delayed", 20);
 }
 
 pub fn replay(ctx: &Ctx, check: &str, case: &Value) -> Result<(), Fail> {
